@@ -36,11 +36,12 @@ POSITION_VALUED = {"pairwise_indices": "cols_in_cells", "pairwise_indices_alt": 
                    "pairwise_means_indices": "cols_in_cells", "pairwise_means_indices_alt": "cols_in_cells",
                    "columns_scale_mean_pairwise_indices": "cols_per_col",
                    "columns_scale_mean_pairwise_indices_alt": "cols_per_col",
+                   "summary_pairwise_indices": "cols_per_col",
                    "inserted_row_idxs": "rowpos", "inserted_column_idxs": "colpos",
                    "diff_row_idxs": "rowpos", "diff_column_idxs": "colpos",
                    "derived_row_idxs": "rowpos", "derived_column_idxs": "colpos"}
 TABLE_LEVEL = {"dimension_types", "table_base_range", "table_margin_range", "selected_category_labels"}
-SKIP_NAMES = {"min_base_size_mask", "pairwise_significance_tests", "summary_pairwise_indices", "shape",
+SKIP_NAMES = {"min_base_size_mask", "pairwise_significance_tests", "shape",
               "is_empty", "row_count", "payload_order", "cube_index", "residual_test_stats"}
 
 A3 = S.cat("a", 3, "mid", values=[1, None, 3], names=["b_lab", "c_lab", "a_lab"])
@@ -231,7 +232,21 @@ def read_all(part, names):
             out[n] = ("ok", getattr(part, n))
         except Exception as e:  # same exception type expected in both runs
             out[n] = ("exc", type(e).__name__)
+    # the per-column summary tests (column share of the table) as column x column matrices
+    for syn, attr in SYNTHETIC.items():
+        if not hasattr(part, "pairwise_significance_tests"):
+            break
+        try:
+            tests = part.pairwise_significance_tests
+            out[syn] = ("ok", np.array([np.asarray(getattr(t_, attr), dtype=float) for t_ in tests]).reshape(
+                len(tests), -1) if len(tests) else np.zeros((0, 0)))
+        except Exception as e:
+            out[syn] = ("exc", type(e).__name__)
     return out
+
+
+SYNTHETIC = {"pairwise_significance_tests[].summary_t_stats": "summary_t_stats",
+             "pairwise_significance_tests[].summary_p_vals": "summary_p_vals"}
 
 
 _CACHE = {}
@@ -249,6 +264,7 @@ def _base_run(space, tier, ms, base_t):
     part = Cube(tabulate(sch, data), transforms=copy.deepcopy(base_t), population=1000, mask_size=2).partitions[0]
     names = public_names(part)
     vals = read_all(part, names)
+    names = names + [k for k in SYNTHETIC if k in vals]
     ro = [int(i) for i in part.row_order()]
     co = [int(i) for i in part.column_order()] if hasattr(part, "column_order") else None
     res = (data, names, vals, ro, co)
@@ -346,7 +362,9 @@ def check(space, state):
                               % (n, got, exp)))
             continue
         # classify by the base value's extent
-        if bv is None or isinstance(bv, (str, bool)) or n in TABLE_LEVEL:
+        if n in SYNTHETIC:
+            exp = np.asarray(bv)[np.ix_(pc, pc)] if np.asarray(bv).shape == (C, C) else bv
+        elif bv is None or isinstance(bv, (str, bool)) or n in TABLE_LEVEL:
             exp = bv
         elif isinstance(bv, np.ndarray) and bv.ndim == 2 and not strand and bv.shape == (R, C):
             exp = bv[np.ix_(pr, pc)]
